@@ -52,7 +52,9 @@ CLAIMS = {
        "equals now - true last spike, that the delay-adjusted rules equal the documented function of t_delta with the causal branch "
        "iff t_delta >= 0, and the identities (delay rule = mirrored weight rule, d=0 reduces to the kernel rule). Outcome tables are "
        "replayed into the six delay-adjusted trainers and the kernel trainers; paired trainers are also compared directly; random "
-       "cells are trace-validated exactly in the dyadic recipe.",
+       "cells are trace-validated exactly in the dyadic recipe. KernelSTDP on connections with constant whole-step delays (rule ka) "
+       "is specified as the kernel over ARRIVAL times; both trainer modes (delayed / undelayed) refine it (ShiftIdentity) and "
+       "populations, 1x1 cells and several-cell runs (cells sharing a neuron group or a connection) replay it.",
   technique="TLA+ spec (DelayAdjCore) model-checked by TLC + outcome-table replay + cross-implementation equality + trace validation",
   design="DESIGN.md 4/C18, notes/C18.md", engine="tlc-mc, tlc-gen+replay, tlc-trace"),
 }
